@@ -88,7 +88,7 @@ def is_valid(s):
     try:
         ast.parse(s)
         return True
-    except (SyntaxError, ValueError):
+    except (SyntaxError, ValueError, RecursionError, MemoryError):
         return False
 
 
